@@ -57,7 +57,11 @@ def framework(at, lim):
             ["r", "P r", "probability", 1, None, 0, 0.4, "min(f2, 5)/10", None, "n"],
             ["m", "P m", "rate", 1, 0.3, 0, 1.5, None, "pa", "y"],
             ["km", "P km", "probability", 1, None, 0, 1, "m/2", None, "n"],
-            ["g", "P g", None, None, None, 0.1, None, "ca / max(alive, 1) * f1", None, "n"]]
+            ["g", "P g", None, None, None, 0.1, None, "ca / max(alive, 1) * f1", None, "n"],
+            # a chain of output parameters (evaluated after the run) whose first member is held by its maximum: the dependent must see the clipped value
+            ["w", "P w", None, None, None, None, 10, "cb", None, "n"],
+            ["w2", "P w2", None, None, None, None, None, "w*3 + 1", None, "n"],
+            ["w3", "P w3", None, None, None, 40, None, "w2 - r:flow", None, "n"]]
     sheet("Parameters", rows)
     wb.close()
     Fw = at.ProjectFramework(sc.Spreadsheet(f))
